@@ -1,4 +1,5 @@
 import LoguruModel.Rotation.Spec
+import LoguruModel.Rotation.Stream
 /-
 C19 – property theorems: size-based rotation keeps every file within the configured number of
 bytes.  `rotationSize` is the kernel regenerated from `Rotation.rotation_size` in /repo.
@@ -270,5 +271,95 @@ example :
     ((Sink.run [.size 16, .time (Form.daily).cfg] (Sink.init [.size 16, .time (Form.daily).cfg] 0 10)
         [⟨⟨1, 0⟩, 6, 6, 6⟩, ⟨⟨2, 0⟩, 1, 1, 1⟩, ⟨⟨3, 0⟩, 40, 40, 40⟩, ⟨⟨86400000000, 0⟩, 1, 1, 1⟩]).files.map FileRec.size)
       = [16, 1, 40, 1] := by decide +kernel
+
+/-! ### round 5: the stream behind the sink (buffering), the order of `FileSink.write`, `any` -/
+
+/-- `buffered_tell_is_file_size`: the number `rotation_size` adds the encoded length to IS the real
+size of the current file – the sink's own bytes whether flushed or still pending in the stream's
+buffers, plus whatever other writers appended – because the source reads it with `file.seek(0, 2)`
+followed by `file.tell()` (regenerated `Gen.sizeSource`).  Hence a sink over a real stream behaves
+like the abstract sink the bound is proved for: ANY buffering policy, ANY line ends, whether or not
+the size member was reached on a call. -/
+theorem buffered_tell_is_file_size (pol : Stream → Int → Int) (asked : Bool) (ls : List Leaf) (b : BSink) (m : Msg)
+    (hm : 0 ≤ m.disk) (hc : Coh b.stream b.sink.cur) :
+    sizeSource = .seekEndTell ∧
+    (b.stream.measure sizeSource).1 = b.sink.cur.size ∧
+    (b.write pol asked ls m).sink = Sink.write ls b.sink m ∧
+    Coh (b.write pol asked ls m).stream (b.write pol asked ls m).sink.cur := by
+  have hsrc : sizeSource = .seekEndTell := by decide
+  refine ⟨hsrc, ?_, BSink.write_refines pol asked ls b m hm hc⟩
+  rw [hsrc, (Stream.measure_seekEndTell b.stream).1]; exact hc.1
+
+/-- the two shapes it refutes.  Reading the size from the OS (`os.fstat(fd).st_size`) misses what is
+still buffered: 90 bytes on disk, 30 pending, limit 100 – a 5-byte record is let in although the file
+really holds 120.  Reading `tell()` without the seek misses other writers: own offset 12, file really
+22 bytes long, limit 20. -/
+theorem size_read_elsewhere_is_not_file_size :
+    let s : Stream := { disk := 90, pending := 30, fdpos := 90 }
+    let t : Stream := { disk := 22, pending := 0, fdpos := 12 }
+    rotationSize (s.measure .statSize).1 5 5 100 = false ∧ rotationSize (s.measure .seekEndTell).1 5 5 100 = true ∧
+    rotationSize (t.measure .tellOnly).1 5 5 20 = false ∧ rotationSize (t.measure .seekEndTell).1 5 5 20 = true := by
+  decide
+
+theorem runOps_msgs (ls : List Leaf) : ∀ (ms : List (Msg × Bool)) (s : Sink),
+    Sink.runOps ls s ((ms.map fun p => BOp.msg p.1 p.2).map BOp.abs) = Sink.run ls s (ms.map Prod.fst) := by
+  intro ms
+  induction ms with
+  | nil => intro s; rfl
+  | cons p ms ih =>
+    intro s
+    simp only [List.map_cons, Sink.runOps, Sink.run, List.foldl_cons, BOp.abs, Sink.step]
+    exact ih _
+
+/-- `disk_size_bounded_any_buffering`: the bound of the property on what `os.stat` shows, for a sink
+writing through a buffered stream: any limit, any list containing the size condition, any
+pre-existing size, any history of records (each with the flag whether `any` reached the size member),
+ANY buffering policy – every file the sink touched satisfies the bound on its real size, and the
+bytes of the current file that have reached the OS never exceed its real size. -/
+theorem disk_size_bounded_any_buffering (pol : Stream → Int → Int) (ls : List Leaf) (S : Int) (hS : Leaf.size S ∈ ls)
+    (ctime P : Int) (ms : List (Msg × Bool)) (hms : ∀ p ∈ ms, 0 ≤ p.1.disk ∧ p.1.disk ≤ p.1.bytes) :
+    let b := BSink.run pol ls ⟨Sink.init ls ctime P, Stream.opened P⟩ (ms.map fun p => BOp.msg p.1 p.2)
+    (∀ f ∈ b.sink.files, Bounded S f) ∧ b.stream.disk ≤ b.sink.cur.size ∧ b.stream.logical = b.sink.cur.size := by
+  intro b
+  have h0 : Coh (Stream.opened P) (Sink.init ls ctime P).cur := by
+    simp [Coh, Stream.opened, Stream.logical, Sink.init, FileRec.size, sumBytes]
+  have hr := BSink.run_refines pol ls (ms.map fun p => BOp.msg p.1 p.2) ⟨Sink.init ls ctime P, Stream.opened P⟩
+    (by
+      intro o ho
+      obtain ⟨p, hp, rfl⟩ := List.mem_map.mp ho
+      exact (hms p hp).1) h0
+  have hs : b.sink = Sink.run ls (Sink.init ls ctime P) (ms.map Prod.fst) := by
+    show (BSink.run pol ls _ _).sink = _
+    rw [hr.1, runOps_msgs]
+  refine ⟨?_, Coh.disk_le _ _ hr.2, hr.2.1⟩
+  rw [hs]
+  exact file_size_bounded_partial ls S hS ctime P (ms.map Prod.fst) (by
+    intro m hm
+    obtain ⟨p, hp, rfl⟩ := List.mem_map.mp hm
+    exact (hms p hp).2)
+
+/-- non-vacuity: limit 100, a policy that never flushes by itself (a large `buffering`), five records of 30
+bytes: the size test still sees 90 + 30 > 100 and rotates before the fourth -/
+example :
+    ((BSink.run (fun _ _ => 0) [.size 100] ⟨Sink.init [.size 100] 0 0, Stream.opened 0⟩
+        (([0, 1, 2, 3, 4] : List Int).map fun i => BOp.msg ⟨⟨i, 0⟩, 30, 30, 30⟩ true)).sink.files.map FileRec.size) = [90, 60] := by
+  decide +kernel
+
+/-- `rotation_check_precedes_write`: `FileSink.write` opens the file if needed, THEN asks the rotation
+function, THEN writes (regenerated `Gen.writeOrder`), which is the order `Sink.write` models: the record
+that does not fit is the first record of the new file.  Refuted shape (write, then check): the file
+already holds the record that did not fit – 12 + 9 = 21 bytes under a limit of 16. -/
+theorem rotation_check_precedes_write (ls : List Leaf) (s : Sink) (m : Msg)
+    (hrot : (groupCall ls s.states
+      { ctime := s.creation, stamp := m.stamp, bytes := m.bytes, chars := m.chars, tell := s.cur.size }).1 = true) :
+    writeOrder = [.ensureOpen, .rotationCheck, .fileWrite] ∧
+    (Sink.write ls s m).cur.msgs = [(s.next, m.disk)] ∧ (Sink.write ls s m).closed = s.closed ++ [s.cur] ∧
+    (rotationSize 12 9 9 16 = true ∧ (12 : Int) + 9 > 16) := by
+  refine ⟨by decide, ?_, ?_, by decide⟩ <;> simp [Sink.write, hrot]
+
+/-- the members of a list of conditions are combined with `any`, in list order (regenerated
+`Gen.groupCombinator`); this is the combinator `groupCall` – and with it `group_rotates_iff_any`,
+`group_false_fits`, the bound – is about -/
+theorem group_is_any_in_list_order : groupCombinator = .anyInOrder := by decide
 
 end C19
